@@ -103,6 +103,12 @@ def run(ck):
         import json
 
         blob = json.load(open(ck.replay))
+        if blob["case"].get("session"):
+            cases = [{"ev": blob["case"]["ev"]}]
+            traces = ck.pmap("impl_c12s", "observe", cases, nproc=1)
+            ck.cov["bound"] = {}
+            _session_apply(ck, _session_validate_collect(ck, cases, traces, "replay"))
+            return
         cases = [blob["case"]]
         traces = ck.pmap("impl_c12", "observe", cases, nproc=1)
         _validate(ck, traces, "replay", alias=bool(blob["case"].get("alias", False)))
@@ -139,6 +145,9 @@ def run(ck):
         return ck.tlc("MC_C12", f"MC_C12_sim_{tag}", workers=1, simulate=n_sim, depth=depth + 1, label=f"[{tag}] simulation depth={depth}", timeout=1800)
 
     jobs = [(k, a) for a in (False, True) for k in ("cover", "sim")] + [("coverx", False)]
+    # the Session composition (registry + quantities labelled from it) runs alongside, verdicts are applied at the end
+    sess_pool = cf.ThreadPoolExecutor(1)
+    sess_future = sess_pool.submit(_session_collect, ck)
     with cf.ThreadPoolExecutor(5) as ex:
         results = dict(zip(jobs, ex.map(lambda j: gen(*j), jobs)))
 
@@ -192,8 +201,146 @@ def run(ck):
         outs = list(ex.map(lambda w: _validate_collect(ck, w[2], w[0], w[1]), work))
     for o in outs:
         _apply_verdicts(ck, o)
+    n_session, sess_cases, sess_outs = sess_future.result()
+    sess_pool.shutdown()
+    for o in sess_outs:
+        _session_apply(ck, o)
+    nontrivial |= {("session", str(c["ev"])) for c in sess_cases if _session_nontrivial(c)}
     ck.cov["model_level_stale_classes"] = sorted(list(x) for x in model_classes)
     ck.cov["exhaustive"] = True
     ck.cov["evaluations"] = ck.cov["traces_validated_against_impl"]
     ck.cov["rule"] = "histories of registry calls exported by TLC (one per distinct state / transition of the bounded instance, plus simulated ones) replayed on a real registry; non-trivial = the history contains an edit (add/modify/remove/define) of a symbol after some string mentioning it was resolved"
     ck.cov["distinct_nontrivial"] = len(nontrivial)
+
+
+# --------------------------------------------------------------------------
+# Session composition: the registry together with the quantities labelled from it (spec/Session.tla)
+# --------------------------------------------------------------------------
+
+
+def _session_generate(ck):
+    """TLC: transition cover of the bounded Session instance + simulated behaviours beyond the bound."""
+    import concurrent.futures as cf
+
+    maxlen = ck.q(5, 6)
+    n_sim = ck.q(150, 3000)
+    depth = ck.q(9, 12)
+
+    def gen(kind):
+        if kind == "trans":
+            cfg = open(ck.spec + "/MC_C12_session_trans.cfg").read().replace("MaxLen = 5", f"MaxLen = {maxlen}")
+            open(ck.spec + "/MC_C12_session_run.cfg", "w").write(cfg)
+            return ck.tlc("MC_C12_session", "MC_C12_session_run", workers=1, label=f"[session] exhaustive to {maxlen} calls (3 fixed + {maxlen - 3} free), VIEW hides history, transition cover export", required_actions=["SNext"], timeout=3000)
+        cfg = open(ck.spec + "/MC_C12_session_sim.cfg").read().replace("MaxLen = 12", f"MaxLen = {depth + 3}").replace("ExportLen = 9", f"ExportLen = {depth}")
+        open(ck.spec + "/MC_C12_session_simrun.cfg", "w").write(cfg)
+        return ck.tlc("MC_C12_session", "MC_C12_session_simrun", workers=1, simulate=n_sim, depth=depth + 1, label=f"[session] simulation depth={depth}", timeout=1800)
+
+    with cf.ThreadPoolExecutor(2) as ex:
+        rt, rs = ex.map(gen, ["trans", "sim"])
+    hists = rt.by_tag("HIST")
+    if len(hists) < 1000:
+        raise MachineryFailure("session: too few histories exported")
+    sims = rs.by_tag("HIST")
+    rnd = random.Random(ck.seed)
+    fam = {}
+    for c in sims:
+        fam.setdefault(str(c["ev"][:-1]), []).append(c)
+    sims = [c for k in sorted(fam) for c in rnd.sample(fam[k], min(3, len(fam[k])))]
+    ck.cov["bound"]["session"] = {"MaxLen": maxlen, "transitions_exported": len(hists), "simulated": len(sims), "sim_depth": depth}
+    return [{"ev": r["ev"]} for r in hists], [{"ev": r["ev"]} for r in sims]
+
+
+_SESSION_EDITS = ("add", "modify", "remove")
+
+
+def _session_nontrivial(c):
+    """an object or a memoised string exists before an edit of a symbol it mentions, and something is asked afterwards"""
+    seen = False
+    edited = False
+    for it in c["ev"][3:]:
+        op = it["e"]["op"]
+        if op in _SESSION_EDITS:
+            edited = True
+        elif edited:
+            return True
+    return False
+
+
+def _session_validate_collect(ck, cases, traces, label):
+    out = []
+    CH = 20000
+    for off in range(0, len(traces), CH):
+        part = traces[off : off + CH]
+        path = ck.write_json(f"straces_{label}_{off}.json", part)
+        res = ck.tlc("Trace_C12_session", "Trace_C12_session", env={"TRACES": path}, workers=1, coverage=False, label=f"trace-validation session {label}", timeout=1800)
+        expect = 1 + sum(len(t["ev"]) + 1 for t in part)
+        if res.distinct != expect:
+            raise MachineryFailure(f"session trace validation consumed {res.distinct} states, expected {expect}")
+        out.append((cases[off : off + CH], part, res.by_tag("T-FAIL"), res.by_tag("P-FAIL")))
+    return out
+
+
+def _sshort(e):
+    return " ".join(f"{k}={e[k]}" for k in ("op", "h", "sym", "scale", "pfx", "dim", "str", "i", "j") if k in e) + " -> " + str(e.get("res", {}).get("k", ""))
+
+
+def _session_apply(ck, collected):
+    for cases, part, tfails, pfails in collected:
+        ck.validated(len(part))
+        for r in tfails:
+            t = part[r["tid"] - 1]
+            ck.drift_step("session." + r["op"], {"history": [_sshort(e) for e in t["ev"][: r["l"]]], "model": r["model"], "observed": r["observed"], "model_objs": r.get("mobjs"), "observed_objs": r.get("oobjs")})
+        for r in pfails:
+            t = part[r["tid"] - 1]
+            e = t["ev"][r["l"] - 1]
+            hs = sorted({x["h"] for x in t["ev"][: r["l"]]})
+            key = {"clause": r["clause"], "layer": "session", "op": r["op"], "what": r["what"], "stale_operand": bool(r["stale"]), "edit": r["edit"], "handles": "two" if len(hs) > 1 else "one"}
+            if r["op"] in ("make", "unit", "to", "convin"):
+                # the memo layer of the recorded finding `layer: lutrow` (derived prefixed rows survive edits of their base symbol)
+                if _derived_row_involved(t["ev"][: r["l"]], e.get("str", "")):
+                    key["layer"] = "lutrow"
+            ck.violation(key, {"observed": r["observed"], "expected": r["expected"], "history": [_sshort(x) for x in t["ev"][: r["l"]]], "h1_route": t.get("h1_route", "")}, case={"session": True, "ev": cases[r["tid"] - 1]["ev"][: r["l"]]})
+
+
+def _derived_row_involved(evs, s):
+    """classification only: the string mentions a kilo-prefixed key that the table holds as a DERIVED row (written back by
+    a look-up, never added by the caller) - the memo layer of the recorded finding `layer: lutrow`"""
+    own = set()
+    for e in evs:
+        if e["op"] == "add" and e.get("res", {}).get("k") == "ok":
+            own.add(e["sym"])
+        if e["op"] == "remove" and e.get("res", {}).get("k") == "ok":
+            own.discard(e["sym"])
+    rows = evs[-2]["rows"] if len(evs) >= 2 else []
+    keys = ["foo", "qux", "kfoo", "kqux"]
+    for k in ("kfoo", "kqux"):
+        if k in s and k not in own and rows and rows[keys.index(k)][0] != 0:
+            return True
+    return False
+
+
+def _session_collect(ck):
+    """generate -> replay -> validate; returns (n cases, cases, collected verdict records) - verdicts are applied by the caller"""
+    import concurrent.futures as cf
+
+    cover, sims = _session_generate(ck)
+    cases = cover + sims
+    traces = ck.pmap("impl_c12s", "observe", cases)
+    bad = [t for t in traces if "_error" in t]
+    if bad:
+        raise MachineryFailure("session replay error: " + str(bad[0]))
+    ck.sample({"session_history": [dict(it["e"], h=it["h"]) for it in cases[len(cover) // 2]["ev"]]})
+    CH = 12000
+    work = [(f"{off}", cases[off : off + CH], traces[off : off + CH]) for off in range(0, len(cases), CH)]
+    with cf.ThreadPoolExecutor(6) as ex:
+        outs = list(ex.map(lambda w: _session_validate_collect(ck, w[1], w[2], w[0]), work))
+    ck.cov["session_nontrivial"] = sum(1 for c in cases if _session_nontrivial(c))
+    ck.cov["session_handle1_routes"] = sorted({t.get("h1_route", "") for t in traces if t.get("h1_route")})
+    return len(cases), cases, outs
+
+
+def run_session(ck):
+    n, cases, outs = _session_collect(ck)
+    for o in outs:
+        _session_apply(ck, o)
+    return n
